@@ -22,6 +22,14 @@ def oracle(c):
                 fails.append(("timeout-bound-exceeded", "call %d (timeout %.0f ms) returned after %.1f ms > timeout + leniency %.0f ms" % (o["t"], o["timeout_ms"], o["elapsed_ms"], bound)))
             if o["elapsed_ms"] < bound - 5:
                 fails.append(("timeout-too-early", "call %d timed out after %.1f ms < timeout + leniency %.0f ms" % (o["t"], o["elapsed_ms"], bound)))
+    if not c["scenario"].startswith("c19race-"):
+        for o in c["outcomes"]:
+            # whatever its result, no call may take longer than its timeout plus the leniency
+            if o["code"] >= 0 and o["want"] != 449 and o["elapsed_ms"] > o["timeout_ms"] + len_ms + slack:
+                fails.append(("call-exceeded-its-timeout", "call %d (timeout %.0f ms) returned after %.1f ms with code %d" % (o["t"], o["timeout_ms"], o["elapsed_ms"], o["code"])))
+                break
+    if c.get("renew_ms") is not None and c["renew_ms"] > 500 + slack:
+        fails.append(("renewal-waits-for-outstanding-request", "a token renewal took %.0f ms while a request that had been written long before was waiting for its response" % c["renew_ms"]))
     if c.get("cancel_latency_ms", 0) > slack:
         fails.append(("cancel-not-prompt", "a cancelled call returned %.1f ms after the cancellation" % c["cancel_latency_ms"]))
     if c.get("disconnect_latency_ms", 0) > 2 * slack:
@@ -39,7 +47,7 @@ def oracle(c):
 
 
 def run(ctx):
-    n = 240 if ctx.thorough() else 18
+    n = 245 if ctx.thorough() else 21
     proof_ok, detail = True, {}
     if ctx.replay:
         # a replay file names the seed and the scenario; all scenarios are deterministic functions of the seed
@@ -97,14 +105,15 @@ def run(ctx):
 
     corr_ok, mism = True, []
     if ok:
-        terms = [sc.case_term(c) for c in cases]
+        ecases = [c for c in cases if not c.get("oracle_only")]
+        terms = [sc.case_term(c) for c in ecases]
         okc, idx, clog = ctx.eval_cases(sc.IMPORTS, sc.CTYPE, terms, sc.AGREE, shard=60)
         if not okc:
             corr_ok = False
             detail["cases"] = clog[-1500:]
         elif idx:
             corr_ok = False
-            mism = [cases[i] for i in idx[:5]]
+            mism = [ecases[i] for i in idx[:5]]
             detail["model_vs_impl_mismatches"] = [{"scenario": m["scenario"], "label": m["label"], "events": m["events"],
                                                    "outcomes": [(o["t"], o["code"], o["id"], o["uid"]) for o in m["outcomes"]],
                                                    "handlers": m["handlers"], "rcv_locked": m.get("rcv_locked")} for m in mism]
